@@ -294,9 +294,12 @@ theorem grammar_inv {σ : Schema} {ts ts' : List Token} (h : grammar ts = .ok σ
   unfold grammar at h
   split at h
   · cases h
-  · refine parseDefs_inv _ _ _ _ _ ?_ h
-    refine ⟨by simp [Schema.topNames], by simp, by simp [Schema.allTypes],
-      by simp [Schema.EnumMembersUnique]⟩
+  · have h0 : GInv { pkg := ‹List Name› } :=
+      ⟨by simp [Schema.topNames], by simp, by simp [Schema.allTypes],
+        by simp [Schema.EnumMembersUnique]⟩
+    split at h
+    · cases h; exact h0
+    · exact parseDefs_inv _ _ _ _ _ h0 h
 
 
 /-! ### ResolveRefs -/
